@@ -3,6 +3,10 @@
 //   CC <i[:delta]>...             CacheControl built through the API (i = model index), written, parsed back
 //   TM <name hex> <value hex>   as T, but parsed by the request parser out of a message (value not terminated)
 //   CL <n>   EN <C|T> <i>   CN <i>   EX <i>   HO <host hex> <port>   SV <token hex>...
+//   CQ <top> <sub> <q>           ContentType(MediaType(top, sub) with quality q/100) through the header API: written, parsed
+//                                (parse, and the request parser on a whole message), written again
+//     -> CQ <text hex> <q parsed> <q parsed by the request parser> <second text hex>
+//   AQ <text hex>                Accept filled from text: the quality of each media range
 //   L <message hex> <name hex>... parse the request, look every name up in the raw header collection
 #include <pistache/http.h>
 #include <pistache/http_headers.h>
@@ -206,6 +210,34 @@ static std::string handle(const std::string& line)
             for (const auto& tk : b.tokens())
                 r += " " + pv::hex(tk);
             return r;
+        }
+        if (t[0] == "CQ" && t.size() == 4)
+        {
+            Mime::MediaType m(static_cast<Mime::Type>(atoi(t[1].c_str())), static_cast<Mime::Subtype>(atoi(t[2].c_str())));
+            m.setQuality(Mime::Q(static_cast<Mime::Q::Type>(atoi(t[3].c_str()))));
+            Header::ContentType a(m), b;
+            std::string w = write(a);
+            b.parse(w);
+            auto qs = [](const Mime::MediaType& x) { return x.q().has_value() ? std::to_string(static_cast<int>(static_cast<uint16_t>(*x.q()))) : std::string("-"); };
+            std::string msg = "GET / HTTP/1.1\r\ncontent-TYPE: " + w + "\r\n\r\n";
+            RequestParser p(1 << 20);
+            p.feed(msg.data(), msg.size());
+            std::string viaParser = "notdone";
+            if (p.parse() == Private::State::Done)
+            {
+                auto ct   = p.request.headers().tryGet<Header::ContentType>();
+                viaParser = ct ? qs(ct->mime()) : std::string("missing");
+            }
+            return "CQ " + pv::hex(w) + " " + qs(b.mime()) + " " + viaParser + " " + pv::hex(write(b));
+        }
+        if (t[0] == "AQ" && t.size() == 2)
+        {
+            Header::Accept a;
+            a.parse(pv::unhex(t[1]));
+            std::string r = "AQ";
+            for (const auto& m : a.media())
+                r += " " + (m.q().has_value() ? std::to_string(static_cast<int>(static_cast<uint16_t>(*m.q()))) : std::string("-"));
+            return r + " " + pv::hex(write(a));
         }
         if (t[0] == "L" && t.size() >= 2)
         {
